@@ -436,6 +436,25 @@ GENERATORS = {
 }
 
 
+def _discover():
+    """further generators live in tools/gens/*.py, each exposing GENERATORS = {"Name": function(repo) -> text}"""
+    import glob
+    import importlib.util
+    here = os.path.dirname(os.path.abspath(__file__))
+    if here not in sys.path:
+        sys.path.insert(0, here)
+    sys.modules.setdefault("translate", sys.modules[__name__])
+    for path in sorted(glob.glob(os.path.join(here, "gens", "*.py"))):
+        name = "gens_" + os.path.basename(path)[:-3]
+        spec = importlib.util.spec_from_file_location(name, path)
+        mod = importlib.util.module_from_spec(spec)
+        spec.loader.exec_module(mod)
+        GENERATORS.update(getattr(mod, "GENERATORS", {}))
+
+
+_discover()
+
+
 def write_if_changed(path, text):
     if os.path.exists(path) and open(path).read() == text:
         return False
